@@ -66,6 +66,8 @@ mo = pick(lambda c: c["kind"] == "metric" and c["op"] == "correlation" and c["sh
 mo["id"] = "good-metric-offset"
 evs.append(mo); good.append(mo)
 mut(mo, "metric-offset-val", "Value", lambda e: e["out"]["vals"].__setitem__(1, e["out"]["vals"][1] + 30))
+mut(ex, "permute-alias", "PermuteAliasesInput", lambda e: e["permute"][3].__setitem__("alias", True))
+mut(le, "lev-sum-double", "SumsToOneDouble", lambda e: e["out"].__setitem__("sumdev", 30000))
 mut(ge, "gen-val", "CongValueOfPerm", lambda e: e["cong"][0].__setitem__("val", e["cong"][0]["val"] + 60))
 mut(ge, "gen-corr", "CorrStacked", lambda e: e["corr"].__setitem__("stacked", e["corr"]["stacked"] + 10))
 mut(ge, "gen-corravg", "CorrAvg", lambda e: e["corr"].__setitem__("avg_score", e["corr"]["avg_score"] + 10))
